@@ -40,9 +40,12 @@
 //! `append_batch`/`flush`/`finish` fails, returns without putting it back or marking it
 //! `writer_finished`; nobody can reach the file any more, so the reader waits on it forever
 //! (logical deadlock; with several writers batches in later files are never delivered either).
-//! Shrunk case: regressions/C16/c16/push-failure-reader-hangs.json. While open, cases with a quota
-//! *and* a reader that drains to end-of-stream carry the signature `quota+draining-reader` and are
-//! excluded (counted in `known_excluded`); quota cases whose reader leaves early still run.
+//! Shrunk case: regressions/C16/c16/push-failure-reader-hangs.json (+ two richer ones next to it).
+//! While open, every case with a quota whose reader polls at all (`reader_max != Some(0)`) carries
+//! the signature `quota+polling-reader` and is excluded (counted in `known_excluded`): any failed
+//! push strands a file the reader will eventually wait on. Quota cases with an idle reader still run
+//! (error paths, disk accounting). With the fix applied and the entry removed the whole fault
+//! enumeration passes (mutrun, seeds 0–4, see probes/c16-fix-verify.log).
 //!
 //! **Deviations from DESIGN.md**: quota sized from a dry run rather than analytically; the failing
 //! `TempFileFactory` injector (§3.8c) is not used (the quota reaches the same error paths);
@@ -100,7 +103,7 @@ pub struct Case {
     pub schedule: Schedule,
 }
 
-const KNOWN_SIG: &str = "quota+draining-reader";
+const KNOWN_SIG: &str = "quota+polling-reader";
 
 fn rows_of(code: u8) -> usize {
     match code {
@@ -561,7 +564,7 @@ impl Property for C16 {
         ]
     }
     fn known_signature(&self, case: &Case) -> Option<String> {
-        if case.quota.is_some() && case.reader_max.is_none() { Some(KNOWN_SIG.to_string()) } else { None }
+        if case.quota.is_some() && case.reader_max != Some(0) { Some(KNOWN_SIG.to_string()) } else { None }
     }
     fn run(&self, case: &Case) -> CaseResult {
         if case.writers.is_empty() {
